@@ -76,10 +76,10 @@ CHECKS = {
             "Value identity = canonical JSON of containers / include-defaults serialization of objects; aliasing is not asserted.",
             "DESIGN.md section 2, C13"),
     "C14": ("fault_enumeration", "finite product of entry points x versions x types x identifier kinds, differential against the direct keyword parse",
-            "14 entry points with a version parameter x version in {None,2.0,2.1} x every storable type of both versions (plus spec_version-less "
+            "16 entry points with a version parameter (incl. FileSystemSource get/query after the same file was read under other versions) x version in {None,2.0,2.1} x every storable type of both versions (plus spec_version-less "
             "flavours) x identifier in {valid, nil, non-RFC-4122 variant, UUIDv1} x allow_custom, each compared with stix2.parse(doc, "
             "allow_custom=, version=) for class, serialization and refusal; library-produced content of every type is re-parsed with no "
-            "version named. Quick tier rotates 9 of the 14 entry points per combination; thorough runs the full product.",
+            "version named. Quick tier rotates 9 of the 16 entry points per combination; thorough runs the full product.",
             "The direct keyword parse is the reference (differential); filesystem source routes read files the harness writes in the documented layout.",
             "DESIGN.md section 2, C14"),
     "C17": ("fault_enumeration", "systematic junk substitution in every slot of generated objects + arbitrary generated JSON + nesting catalogue; oracle = exception family, registries/stores unchanged, watchdog",
